@@ -33,7 +33,8 @@ def run(chk):
     n = 120 if quick else 2500
     for i in range(n):
         rng = chk.rng
-        mode = rng.choice(["block", "err"])
+        # "+same": all requests go through one service value instead of a fresh clone each (the limit is per layer, whatever the usage)
+        mode = rng.choice(["block", "err", "block+same", "err+same"])
         maxn = rng.choice([0, 1, 1, 2, 2, 3, 5])
         npeers = rng.randrange(1, 5)
         length = rng.choice([5, 10, 20, 40, 200 if i % 10 == 0 else 30])
@@ -44,13 +45,13 @@ def run(chk):
     for c, a in zip(cases, ci):
         t = c.split()
         evs = [x.split(":")[0] for x in a.split()] if not a.startswith(("PANIC", "CRASH", "TIMEOUT", "HANG")) else []
-        mcases.append("inflight %s %s %s" % (t[1], t[2], " ".join(evs)))
+        mcases.append("inflight %s %s %s" % (t[1].split("+")[0], t[2], " ".join(evs)))
     cm = run_model(mcases)
     for c, mc, a, b in zip(cases, mcases, ci, cm):
         chk.evaluations += 1
         t = c.split()
-        mode, maxn = t[1], int(t[2])
-        chk.count("mode:" + mode)
+        mode, maxn = t[1].split("+")[0], int(t[2])
+        chk.count("mode:" + t[1])
         chk.count("max:%d" % maxn)
         if a.startswith(("PANIC", "CRASH", "TIMEOUT", "HANG")):
             chk.monitor_fail("inflight layer panicked / hung", dict(case=c, impl=a))
